@@ -107,6 +107,40 @@ Section Values.
   Qed.
 End Values.
 
+
+(* ---- the decision is also necessary: an operation that writes a static, run by one thread while another thread runs an
+   operation that reads or writes the same static, races in EVERY interleaving (this is why the documented setters --
+   Rational::SetReduce / SetNoReduce, rmint::init_module -- may not be called while other threads compute, and why a
+   constructor that "temporarily" switches Rational::flags breaks the property) *)
+Definition StaticWriterRaces_stmt : Prop :=
+  forall ops ts tr i j a b s, dsched vcall ts tr -> i <> j -> In a (nth i ts []) -> In b (nth j ts []) ->
+    In s (static_writes ops (vc_name a)) -> In s (static_reads ops (vc_name b)) \/ In s (static_writes ops (vc_name b)) ->
+    dhas_race vloc vcall (vreads ops) (vwrites ops) tr.
+Lemma static_writer_races : StaticWriterRaces_stmt.
+Proof.
+  intros ops ts tr i j a b s Hs Hij Ha Hb Hw Hrw.
+  apply (conflict_always_races vloc vcall (vreads ops) (vwrites ops) ts tr i j a b Hs Hij Ha Hb).
+  exists (LStatic s). left. split.
+  - unfold vwrites. apply in_or_app. right. apply in_map. exact Hw.
+  - destruct Hrw as [H|H].
+    + left. unfold vreads. apply in_or_app. right. apply in_or_app. right. apply in_map. exact H.
+    + right. unfold vwrites. apply in_or_app. right. apply in_map. exact H.
+Qed.
+
+(* what the per-run decision `value_offenders value_ops = []` gives: every operation of the description that is not a documented
+   writer is accepted *)
+Definition OffendersNilAccepted_stmt : Prop :=
+  forall ops n o, value_offenders ops = [] -> find_vop ops n = Some o -> vo_documented o = false -> accepted ops n = true.
+Lemma offenders_nil_accepted : OffendersNilAccepted_stmt.
+Proof.
+  intros ops n o Hnil Hf Hd. unfold accepted. rewrite Hf.
+  apply find_some in Hf. destruct Hf as [Hin _].
+  destruct (vop_rf_b o) eqn:E; [reflexivity|].
+  assert (In o (filter (fun o => negb (vop_rf_b o) && negb (vo_documented o)) ops)) as Hi.
+  { apply filter_In. split; [exact Hin|]. rewrite E, Hd. reflexivity. }
+  unfold value_offenders in Hnil. apply (in_map vo_name) in Hi. rewrite Hnil in Hi. destruct Hi.
+Qed.
+
 (* ---- the hypothesis "accepted" is needed: a constructor that switches a process-wide mode around one step and restores it
    (sequentially invisible) against a thread that only adds its own numbers.  flags = 1: results are reduced. *)
 Section ModeSwitch.
